@@ -224,8 +224,7 @@ def build_coq(timeout=3000):
     if _coq_built is not None:
         return _coq_built
     with build_lock("coq"):
-        rc, out, dt = sh("coq_makefile -f _CoqProject -o Makefile.tmp$$ > /dev/null && (cmp -s Makefile.tmp$$ Makefile || cp Makefile.tmp$$ Makefile); "
-                         "rm -f Makefile.tmp$$ Makefile.tmp$$.conf; make -j%d" % NPROC,
+        rc, out, dt = sh("coq_makefile -f _CoqProject -o Makefile > /dev/null && make -j%d" % NPROC,
                          cwd=COQ, timeout=timeout, shell=True)
     ok = rc == 0
     if not ok:
